@@ -502,12 +502,55 @@ def r56_container(repo, ctx):
     ctx.floor('R5.6', n, 1)
 
 
+def _running_sum_slices(ctx, path, q, func, flat_param, rule='R5.4'):
+    """the cursor written as a running sum: (start, end) pairs taken from pairwise(accumulate(sizes, initial=0)) are consecutive
+    and start at 0 by construction; the flat vector must be read only through flat[start:end] with that pair"""
+    binds = {st.targets[0].id: st.value for st in ast.walk(func) if isinstance(st, ast.Assign) and len(st.targets) == 1 and isinstance(st.targets[0], ast.Name)}
+
+    def nm(c):
+        return c.func.id if isinstance(c.func, ast.Name) else c.func.attr if isinstance(c.func, ast.Attribute) else None
+
+    def is_running(e):
+        if isinstance(e, ast.Name) and e.id in binds:
+            if sum(1 for n in ast.walk(func) if isinstance(n, ast.Name) and n.id == e.id and isinstance(n.ctx, ast.Load)) != 1:
+                return False            # an iterator can be consumed once
+            e = binds[e.id]
+        if not (isinstance(e, ast.Call) and nm(e) == 'pairwise' and len(e.args) == 1 and isinstance(e.args[0], ast.Call) and nm(e.args[0]) == 'accumulate'):
+            return False
+        acc = e.args[0]
+        init = [k.value for k in acc.keywords if k.arg == 'initial']
+        return len(acc.args) == 1 and len(init) == 1 and U.is_const(init[0], 0)
+    found = 0
+    for node in ast.walk(func):
+        gens = node.generators if isinstance(node, (ast.ListComp, ast.GeneratorExp)) else [node] if isinstance(node, ast.For) else []
+        for g in gens:
+            it = g.iter
+            if not (isinstance(it, ast.Call) and nm(it) == 'zip' and isinstance(g.target, ast.Tuple) and len(g.target.elts) == len(it.args)):
+                continue
+            for a, t in zip(it.args, g.target.elts):
+                if is_running(a) and isinstance(t, ast.Tuple) and len(t.elts) == 2 and all(isinstance(x, ast.Name) for x in t.elts):
+                    lo, hi = t.elts[0].id, t.elts[1].id
+                    body = [node.elt] if not isinstance(node, ast.For) else node.body
+                    reads = [s_ for b in body for s_ in ast.walk(b) if isinstance(s_, ast.Subscript) and isinstance(s_.value, ast.Name) and s_.value.id == flat_param]
+                    ok = bool(reads) and all(isinstance(r.slice, ast.Slice) and isinstance(r.slice.lower, ast.Name) and r.slice.lower.id == lo
+                                             and isinstance(r.slice.upper, ast.Name) and r.slice.upper.id == hi and r.slice.step is None for r in reads)
+                    other = [n for n in ast.walk(func) if isinstance(n, ast.Name) and n.id == flat_param and isinstance(n.ctx, ast.Load)]
+                    ok = ok and len(other) == len(reads)
+                    found += 1
+                    ctx.check(ok, rule, path, q, node, f'{flat_param} is read only through {flat_param}[{lo}:{hi}] with ({lo}, {hi}) consecutive offsets of the running sum of the recorded sizes',
+                              f'{flat_param} is not read exactly through the consecutive (start, end) offsets of the running sum', construct=f'{q}: running-sum offsets over {flat_param}')
+    return found
+
+
 def r54_cursors(repo, ctx):
     r56_container(repo, ctx)
     n = 0
     for q in ('GenericModel.unflattenX', 'Coupler.unflattenX'):
         f = repo.func(GM, q)
-        n += _loop_cursor_check(ctx, GM, q, f, U.params(f)[1])
+        k = _loop_cursor_check(ctx, GM, q, f, U.params(f)[1])
+        if k == 0:
+            k = _running_sum_slices(ctx, GM, q, f, U.params(f)[1])
+        n += k
     ctx.floor('R5.4', n, 2)
     # Coupler.flattenX: _sizeRef assigned on all paths from the arrays that are concatenated
     q = 'Coupler.flattenX'
